@@ -264,6 +264,25 @@ fn decorated(xml: &str) -> Vec<String> {
     out
 }
 
+/// a sink that accepts `left` bytes and then reports a broken pipe
+struct FailAfter {
+    left: usize,
+}
+
+impl std::io::Write for FailAfter {
+    fn write(&mut self, buf: &[u8]) -> std::io::Result<usize> {
+        if self.left == 0 {
+            return Err(std::io::Error::new(std::io::ErrorKind::BrokenPipe, "sink closed"));
+        }
+        let n = buf.len().min(self.left);
+        self.left -= n;
+        Ok(n)
+    }
+    fn flush(&mut self) -> std::io::Result<()> {
+        Ok(())
+    }
+}
+
 macro_rules! probe {
     ($name:expr, $t:ty, $bare:ident, $wrapped:ident, $gen:expr, $rng:expr, $cases:expr, $out:expr, $n:expr) => {
         for case in 0..$cases {
@@ -271,6 +290,12 @@ macro_rules! probe {
             // at the root
             let w = MultiRef::new(v.clone());
             cmp($name, case, "root-ser", format!("{:?}", yaserde::ser::to_string(&v)), format!("{:?}", yaserde::ser::to_string(&w)), $out, $n);
+            // a write that fails half-way (same outcome for both), and what is written by the next attempt on the same values
+            let cut = $rng.below(60) as usize;
+            let fa = yaserde::ser::serialize_with_writer(&v, FailAfter { left: cut }, &yaserde::ser::Config::default()).map(|_| ());
+            let fb = yaserde::ser::serialize_with_writer(&w, FailAfter { left: cut }, &yaserde::ser::Config::default()).map(|_| ());
+            cmp($name, case, "root-ser-failing-sink", format!("{:?}", fa.is_ok()), format!("{:?}", fb.is_ok()), $out, $n);
+            cmp($name, case, "root-ser-after-failed-write", format!("{:?}", yaserde::ser::to_string(&v)), format!("{:?}", yaserde::ser::to_string(&w)), $out, $n);
             cmp($name, case, "root-check", res(v.check_restrictions(None)), res(w.check_restrictions(None)), $out, $n);
             cmp($name, case, "root-debug", format!("{v:?}"), format!("{w:?}"), $out, $n);
             if let Ok(xml) = yaserde::ser::to_string(&v) {
@@ -321,6 +346,10 @@ macro_rules! probe {
             };
             let sb = yaserde::ser::to_string(&hb);
             cmp($name, case, "field-ser", format!("{sb:?}"), format!("{:?}", yaserde::ser::to_string(&hw)), $out, $n);
+            let cut = 20 + $rng.below(120) as usize;
+            let _ = yaserde::ser::serialize_with_writer(&hb, FailAfter { left: cut }, &yaserde::ser::Config::default()).map(|_| ());
+            let _ = yaserde::ser::serialize_with_writer(&hw, FailAfter { left: cut }, &yaserde::ser::Config::default()).map(|_| ());
+            cmp($name, case, "field-ser-after-failed-write", format!("{:?}", yaserde::ser::to_string(&hb)), format!("{:?}", yaserde::ser::to_string(&hw)), $out, $n);
             cmp($name, case, "field-check", res(hb.check_restrictions(None)), res(hw.check_restrictions(None)), $out, $n);
             cmp($name, case, "field-debug", format!("{hb:?}").replace(stringify!($bare), "H"), format!("{hw:?}").replace(stringify!($wrapped), "H"), $out, $n);
             if let Ok(xml) = sb {
